@@ -381,9 +381,9 @@ Section Values.
   Definition ok_ov (o : option value) : bool := match o with Some v => okv v | None => true end.
   Definition ok_op (o : cop) : bool :=
     match o with
-    | RegUtility c _ _ _ _ => okv c
+    | RegUtility c _ _ _ _ _ => okv c
     | UnregUtility c _ _ => ok_ov c
-    | RegAdapter f _ _ _ _ | RegSub f _ _ _ _ | RegHandler f _ _ _ => okv f
+    | RegAdapter f _ _ _ _ _ | RegSub f _ _ _ _ _ | RegHandler f _ _ _ _ => okv f
     | UnregAdapter f _ _ _ | UnregSub f _ _ _ | UnregHandler f _ _ => ok_ov f
     | UtilityBoth _ _ _ _ | Reinit => true
     end.
@@ -1282,12 +1282,14 @@ Section Refinement.
     let x := cstep st o in
     let y := spec_step L o in
     inv (st_of x) /\ refines (st_of x) (o_ledger y) /\ ret_of x = o_ret y
-    /\ (benign L o = true -> events_ok (evs_of x) y = true).
+    /\ (benign L o = true -> events_ok (evs_of x) o y = true).
 
   Ltac simp_out := cbn [st_of ret_of evs_of o_ledger o_ret o_removed o_added fst snd].
 
+  Ltac ev_cases := try match goal with ev : bool |- _ => destruct ev end.
+
   Ltac unchanged I R :=
-    cbn; split; [exact I | split; [exact R | split; [reflexivity | intros _; reflexivity]]].
+    cbn; split; [exact I | split; [exact R | split; [reflexivity | intros _; unfold events_ok; cbn; ev_cases; reflexivity]]].
 
   Lemma step_unregU st L c p n : inv st -> refines st L -> ok_ov cls c = true ->
     step_claim st L (UnregUtility c p n).
@@ -1307,7 +1309,7 @@ Section Refinement.
               let y := (mkL (filter (fun r => negb (u_key p n r)) (map u_of (c_ureg st))) (l_a L) (l_s L) (l_h L),
                         RBool true, [RU p n oc oi of], @nil regrec) in
               inv (st_of x) /\ refines (st_of x) (o_ledger y) /\ ret_of x = o_ret y
-              /\ (benign L (UnregUtility c p n) = true -> events_ok (evs_of x) y = true)).
+              /\ (benign L (UnregUtility c p n) = true -> events_ok (evs_of x) (UnregUtility c p n) y = true)).
     { intros comp Hcomp Heq.
       destruct (unreg_live st L p n oc oi of comp I R0 Hget Hcomp Heq) as [st' [E [I' [_ R2]]]].
       rewrite E. cbn. rewrite Ru in R2.
@@ -1320,8 +1322,8 @@ Section Refinement.
     - exact (Hgo oc Hoc (v_eq_refl oc)).
   Qed.
 
-  Lemma step_regU st L c p n i f : inv st -> refines st L -> okv c = true ->
-    step_claim st L (RegUtility c p n i f).
+  Lemma step_regU st L c p n i f ev : inv st -> refines st L -> okv c = true ->
+    step_claim st L (RegUtility c p n i f ev).
   Proof.
     intros I R Hc. unfold step_claim. cbn [cstep spec_step]. unfold registerUtility.
     assert (R0 := R). destruct R as [Ru R']. rewrite Ru, find_u_key.
@@ -1340,11 +1342,11 @@ Section Refinement.
         destruct (reg_fresh st1 _ p n c i f I1 R1 Hfresh Hc) as [I2 R2].
         cbn in R2. rewrite Ru in R2. cbn.
         split; [exact I2 | split; [exact R2 | split; [reflexivity|]]].
-        intros _. unfold events_ok. cbn.
-        rewrite !Nat.eqb_refl, v_eq_refl, !onat_eqb_refl, value_eqb_refl. reflexivity.
+        intros _. unfold events_ok. destruct ev; cbn;
+        rewrite !Nat.eqb_refl, v_eq_refl, !onat_eqb_refl, ?value_eqb_refl; reflexivity.
     - destruct (reg_fresh st L p n c i f I R0 Hget Hc) as [I2 R2]. rewrite Ru in R2.
       cbn. split; [exact I2 | split; [exact R2 | split; [reflexivity|]]].
-      intros _. unfold events_ok. cbn. rewrite !Nat.eqb_refl, onat_eqb_refl, value_eqb_refl. reflexivity.
+      intros _. unfold events_ok. destruct ev; cbn; rewrite ?Nat.eqb_refl, ?onat_eqb_refl, ?value_eqb_refl; reflexivity.
   Qed.
 
   (* ---- adapters, subscription adapters, handlers *)
@@ -1356,8 +1358,8 @@ Section Refinement.
   Lemma nonempty_true {A} (l : list A) : l <> [] -> nonempty l = true.
   Proof. destruct l; [congruence | reflexivity]. Qed.
 
-  Lemma step_regA st L f req p n i : inv st -> refines st L -> okv f = true ->
-    step_claim st L (RegAdapter f req p n i).
+  Lemma step_regA st L f req p n i ev : inv st -> refines st L -> okv f = true ->
+    step_claim st L (RegAdapter f req p n i ev).
   Proof.
     intros I R Hf. unfold step_claim. cbn [cstep spec_step]. unfold registerAdapter, conv_req, benign.
     cbn [multi_removal adapter_overwrite negb andb].
@@ -1375,8 +1377,8 @@ Section Refinement.
         repeat split; cbn; auto. now apply map_a_key with (v0 := (of, oi)).
     - cbn. split; [now apply inv_set_adapters | split; [|split; [reflexivity|]]].
       + repeat split; cbn; auto. rewrite (aset_fresh _ _ _ _ Hget), map_app. reflexivity.
-      + intros _. unfold events_ok. cbn.
-        rewrite lspec_eqb_refl, !Nat.eqb_refl, value_eqb_refl. reflexivity.
+      + intros _. unfold events_ok. destruct ev; cbn;
+        rewrite ?lspec_eqb_refl, ?Nat.eqb_refl, ?value_eqb_refl; reflexivity.
   Qed.
 
   Lemma step_unregA st L f req p n : inv st -> refines st L -> ok_ov cls f = true ->
@@ -1399,8 +1401,8 @@ Section Refinement.
     - unchanged I R0.
   Qed.
 
-  Lemma step_regS st L f req p n i : inv st -> refines st L -> okv f = true ->
-    step_claim st L (RegSub f req p n i).
+  Lemma step_regS st L f req p n i ev : inv st -> refines st L -> okv f = true ->
+    step_claim st L (RegSub f req p n i ev).
   Proof.
     intros I R Hf. unfold step_claim. cbn [cstep spec_step]. unfold registerSub, conv_req.
     assert (R0 := R). destruct R as [Ru [Ra [Rs Rh]]].
@@ -1408,12 +1410,12 @@ Section Refinement.
     cbn. split; [apply inv_set_adapters; auto; apply inv_a_regS; auto; apply (inv_A _ I)
                 | split; [|split; [reflexivity|]]].
     - repeat split; cbn; auto. now rewrite Rs.
-    - intros _. unfold events_ok. cbn.
-      rewrite lspec_eqb_refl, !Nat.eqb_refl, value_eqb_refl. reflexivity.
+    - intros _. unfold events_ok. destruct ev; cbn;
+      rewrite ?lspec_eqb_refl, ?Nat.eqb_refl, ?value_eqb_refl; reflexivity.
   Qed.
 
-  Lemma step_regH st L f req n i : inv st -> refines st L -> okv f = true ->
-    step_claim st L (RegHandler f req n i).
+  Lemma step_regH st L f req n i ev : inv st -> refines st L -> okv f = true ->
+    step_claim st L (RegHandler f req n i ev).
   Proof.
     intros I R Hf. unfold step_claim. cbn [cstep spec_step]. unfold registerHandler, conv_req.
     assert (R0 := R). destruct R as [Ru [Ra [Rs Rh]]].
@@ -1421,8 +1423,8 @@ Section Refinement.
     cbn. split; [apply inv_set_adapters; auto; apply inv_a_regH; auto; apply (inv_A _ I)
                 | split; [|split; [reflexivity|]]].
     - repeat split; cbn; auto. now rewrite Rh.
-    - intros _. unfold events_ok. cbn.
-      rewrite lspec_eqb_refl, !Nat.eqb_refl, value_eqb_refl. reflexivity.
+    - intros _. unfold events_ok. destruct ev; cbn;
+      rewrite ?lspec_eqb_refl, ?Nat.eqb_refl, ?value_eqb_refl; reflexivity.
   Qed.
 
   Lemma single_of_short {A} (l : list A) : l <> [] -> Nat.ltb 1 (length l) = false -> exists x, l = [x].
@@ -1606,7 +1608,7 @@ Section PropertyLemmas.
 
   (* the probe: every listed utility is registered and subscribed *)
   Lemma probe_fold (u : reg) (U l : ureg_t) acc :
-    (forall kv, In kv l -> registered u [] (uprov kv) (uname kv) = Some (ucomp kv)
+    (forall kv, In kv l -> (exists v', registered u [] (uprov kv) (uname kv) = Some v' /\ v_eq v' (ucomp kv) = true)
                            /\ subscribed u [] (Some (uprov kv)) (ucomp kv) = true) ->
     fold_left (fun acc kv =>
                  let '(nr, dr, ns, ds) := acc in
@@ -1619,9 +1621,9 @@ Section PropertyLemmas.
   Proof.
     revert acc. induction l as [|[[p n] [[v i] f]] l IH]; intros [[[nr dr] ns] ds] Hl; cbn [fold_left length].
     - now rewrite !Nat.add_0_r.
-    - destruct (Hl ((p, n), (v, i, f)) (or_introl eq_refl)) as [H1 H2].
-      unfold uprov, uname, ucomp in H1, H2. cbn [fst snd] in H1, H2.
-      rewrite H1, H2, v_eq_refl. rewrite IH by (intros kv Hkv; apply Hl; right; auto).
+    - destruct (Hl ((p, n), (v, i, f)) (or_introl eq_refl)) as [[v' [H1 H1']] H2].
+      unfold uprov, uname, ucomp in H1, H1', H2. cbn [fst snd] in H1, H1', H2.
+      rewrite H1, H1', H2. rewrite IH by (intros kv Hkv; apply Hl; right; auto).
       rewrite <- !plus_n_Sm. reflexivity.
   Qed.
 
@@ -1632,7 +1634,8 @@ Section PropertyLemmas.
     unfold probe, registeredUtilities. rewrite map_length.
     rewrite (probe_fold (c_utils (final ops)) (c_ureg (final ops))); auto.
     intros kv Hkv. split.
-    - unfold registered. cbn [map]. rewrite (iu_adapters _ _ _ _ _ IU).
+    - exists (ucomp kv). split; [|apply v_eq_refl].
+      unfold registered. cbn [map]. rewrite (iu_adapters _ _ _ _ _ IU).
       destruct kv as [[p n] [[c i] f]]. unfold uprov, uname, ucomp. cbn [fst snd].
       rewrite aget_ukv, (In_aget _ pn_eqb_eq _ _ _ (iu_keys _ _ _ _ _ IU) Hkv). reflexivity.
     - unfold subscribed. cbn [map].
@@ -1643,7 +1646,7 @@ Section PropertyLemmas.
 
   Theorem events_partial_lemma ops o : forallb (ok_op cls) ops = true -> ok_op cls o = true ->
     benign (ledger_of ops) o = true ->
-    events_ok (evs_of (cstep (final ops) o)) (spec_step (ledger_of ops) o) = true.
+    events_ok (evs_of (cstep (final ops) o)) o (spec_step (ledger_of ops) o) = true.
   Proof.
     intros H Ho Hb. destruct (reach W hashable cls hash_cls ops H) as [I R].
     destruct (step_ok W hashable cls hash_cls _ _ o I R Ho) as [_ [_ [_ He]]]. auto.
@@ -1674,15 +1677,15 @@ Section PropertyLemmas.
     \/ ret_of (cstep (final ops) o) = RBool (nonempty (o_removed (spec_step (ledger_of ops) o))).
   Proof. intros H Ho Hu. rewrite (returns_lemma ops o H Ho). now apply spec_unregister_ret. Qed.
 
-  Theorem replace_order_lemma ops c p n i f : forallb (ok_op cls) ops = true -> okv c = true ->
+  Theorem replace_order_lemma ops c p n i f ev : forallb (ok_op cls) ops = true -> okv c = true ->
     let st := final ops in
     (forall oc oi of, In (RU p n oc oi of) (registeredUtilities st) ->
        if v_eq oc c && Nat.eqb oi i
-       then cstep st (RegUtility c p n i f) = (st, RNone, [])
-       else evs_of (cstep st (RegUtility c p n i f))
-            = [Unregistered (RU p n oc oi of); Registered (RU p n c i f)])
+       then cstep st (RegUtility c p n i f ev) = (st, RNone, [])
+       else evs_of (cstep st (RegUtility c p n i f ev))
+            = Unregistered (RU p n oc oi of) :: (if ev then [Registered (RU p n c i f)] else []))
     /\ ((forall oc oi of, ~ In (RU p n oc oi of) (registeredUtilities st)) ->
-        evs_of (cstep st (RegUtility c p n i f)) = [Registered (RU p n c i f)]).
+        evs_of (cstep st (RegUtility c p n i f ev)) = if ev then [Registered (RU p n c i f)] else []).
   Proof.
     intros H Hc st. destruct (reach W hashable cls hash_cls ops H) as [I R]. fold st in I, R.
     assert (Hlist : forall oc oi of, In (RU p n oc oi of) (registeredUtilities st) <->
@@ -1719,7 +1722,7 @@ Proof. intros a b E. unfold hashable0. now rewrite E. Qed.
 
 (* F9: the same subscription adapter registered twice, unregistered once: two registrations
    removed, one event *)
-Definition f9_ops : list cop := [RegSub (mkV 1 1) [Some 1] 2 0 0; RegSub (mkV 1 1) [Some 1] 2 0 0].
+Definition f9_ops : list cop := [RegSub (mkV 1 1) [Some 1] 2 0 0 true; RegSub (mkV 1 1) [Some 1] 2 0 0 true].
 Definition f9_op : cop := UnregSub (Some (mkV 1 1)) [Some 1] 2 0.
 
 Lemma f9_witness :
@@ -1727,26 +1730,26 @@ Lemma f9_witness :
   multi_removal (ledger_of f9_ops) f9_op = true /\
   length (o_removed (spec_step (ledger_of f9_ops) f9_op)) = 2 /\
   evs_of (cstep W0 hashable0 (final W0 hashable0 f9_ops) f9_op) = [Unregistered (RS [1] 2 (Some (mkV 1 1)) 0)] /\
-  events_ok (evs_of (cstep W0 hashable0 (final W0 hashable0 f9_ops) f9_op)) (spec_step (ledger_of f9_ops) f9_op) = false.
+  events_ok (evs_of (cstep W0 hashable0 (final W0 hashable0 f9_ops) f9_op)) f9_op (spec_step (ledger_of f9_ops) f9_op) = false.
 Proof. vm_compute. repeat split. Qed.
 
 (* F11: registerAdapter over a live key: the displaced registration gets no Unregistered event *)
-Definition f11_ops : list cop := [RegAdapter (mkV 1 1) [Some 1] 2 0 0].
-Definition f11_op : cop := RegAdapter (mkV 3 3) [Some 1] 2 0 1.
+Definition f11_ops : list cop := [RegAdapter (mkV 1 1) [Some 1] 2 0 0 true].
+Definition f11_op : cop := RegAdapter (mkV 3 3) [Some 1] 2 0 1 true.
 
 Lemma f11_witness :
   forallb (ok_op cls0) f11_ops = true /\ ok_op cls0 f11_op = true /\
   adapter_overwrite (ledger_of f11_ops) f11_op = true /\
   o_removed (spec_step (ledger_of f11_ops) f11_op) = [RA [1] 2 0 (mkV 1 1) 0] /\
   evs_of (cstep W0 hashable0 (final W0 hashable0 f11_ops) f11_op) = [Registered (RA [1] 2 0 (mkV 3 3) 1)] /\
-  events_ok (evs_of (cstep W0 hashable0 (final W0 hashable0 f11_ops) f11_op)) (spec_step (ledger_of f11_ops) f11_op) = false.
+  events_ok (evs_of (cstep W0 hashable0 (final W0 hashable0 f11_ops) f11_op)) f11_op (spec_step (ledger_of f11_ops) f11_op) = false.
 Proof. vm_compute. repeat split. Qed.
 
 Theorem events_exact_refuted_lemma :
   ~ (forall (W : world) (hashable : value -> bool) (cls : nat -> nat),
        (forall a b, veq a = veq b -> hashable a = hashable b) ->
        forall ops o, forallb (ok_op cls) ops = true -> ok_op cls o = true ->
-       events_ok (evs_of (cstep W hashable (final W hashable ops) o)) (spec_step (ledger_of ops) o) = true).
+       events_ok (evs_of (cstep W hashable (final W hashable ops) o)) o (spec_step (ledger_of ops) o) = true).
 Proof.
   intros H. specialize (H W0 hashable0 cls0 hashable0_cls f9_ops f9_op eq_refl eq_refl).
   destruct f9_witness as [_ [_ [_ [_ [_ E]]]]]. congruence.
@@ -1757,7 +1760,7 @@ Theorem events_refuted_multi_lemma :
     (forall a b, veq a = veq b -> hashable a = hashable b) /\
     forallb (ok_op cls) ops = true /\ ok_op cls o = true /\
     multi_removal (ledger_of ops) o = true /\
-    events_ok (evs_of (cstep W hashable (final W hashable ops) o)) (spec_step (ledger_of ops) o) = false.
+    events_ok (evs_of (cstep W hashable (final W hashable ops) o)) o (spec_step (ledger_of ops) o) = false.
 Proof.
   exists W0, hashable0, cls0, f9_ops, f9_op. split; [exact hashable0_cls|].
   destruct f9_witness as [H1 [H2 [H3 [_ [_ H4]]]]]. auto.
@@ -1768,7 +1771,7 @@ Theorem events_refuted_overwrite_lemma :
     (forall a b, veq a = veq b -> hashable a = hashable b) /\
     forallb (ok_op cls) ops = true /\ ok_op cls o = true /\
     adapter_overwrite (ledger_of ops) o = true /\
-    events_ok (evs_of (cstep W hashable (final W hashable ops) o)) (spec_step (ledger_of ops) o) = false.
+    events_ok (evs_of (cstep W hashable (final W hashable ops) o)) o (spec_step (ledger_of ops) o) = false.
 Proof.
   exists W0, hashable0, cls0, f11_ops, f11_op. split; [exact hashable0_cls|].
   destruct f11_witness as [H1 [H2 [H3 [_ [_ H4]]]]]. auto.
@@ -1777,9 +1780,31 @@ Qed.
 (* a history that exercises the counting cache: equal and unhashable components under several
    names, a replacement, removals; adapters, subscription adapters and handlers *)
 Definition ex_ops : list cop :=
-  [RegUtility (mkV 1 1) 3 0 0 None; RegUtility (mkV 2 1) 3 1 0 None; RegUtility (mkV 5 5) 3 2 1 (Some 7);
-   RegUtility (mkV 6 5) 3 0 0 None; UnregUtility (Some (mkV 1 1)) 3 1;
-   RegAdapter (mkV 3 3) [Some 1; None] 2 1 0; RegSub (mkV 4 4) [Some 1] 2 0 0; RegSub (mkV 3 3) [Some 1] 2 0 1;
-   RegHandler (mkV 4 4) [None] 0 0; UnregAdapter None [Some 1; None] 2 1].
+  [RegUtility (mkV 1 1) 3 0 0 None true; RegUtility (mkV 2 1) 3 1 0 None true; RegUtility (mkV 5 5) 3 2 1 (Some 7) false;
+   RegUtility (mkV 6 5) 3 0 0 None true; UnregUtility (Some (mkV 1 1)) 3 1;
+   RegAdapter (mkV 3 3) [Some 1; None] 2 1 0 true; RegSub (mkV 4 4) [Some 1] 2 0 0 false; RegSub (mkV 3 3) [Some 1] 2 0 1 true;
+   RegHandler (mkV 4 4) [None] 0 0 true; UnregAdapter None [Some 1; None] 2 1].
 Definition ex_op : cop := UnregSub None [Some 1] 3 0.
 Definition ex_op2 : cop := UnregSub (Some (mkV 4 4)) [Some 1] 2 0.
+
+(* F13: the first component of a ==-class stays subscribed after it has been unregistered, as
+   long as an equal one is registered under the same provided interface *)
+Definition f13_ops : list cop :=
+  [RegUtility (mkV 1 1) 3 0 0 None true; RegUtility (mkV 2 1) 3 1 0 None true; UnregUtility (Some (mkV 1 1)) 3 0].
+
+Lemma f13_witness :
+  forallb (ok_op cls0) f13_ops = true /\
+  registeredUtilities (final W0 hashable0 f13_ops) = [RU 3 1 (mkV 2 1) 0 None] /\
+  getAllUtilitiesRegisteredFor W0 (final W0 hashable0 f13_ops) 3 = [mkV 1 1].
+Proof. vm_compute. repeat split. Qed.
+
+Theorem stale_utility_lemma :
+  exists W hashable cls ops p v,
+    (forall a b, veq a = veq b -> hashable a = hashable b) /\ forallb (ok_op cls) ops = true /\
+    In v (getAllUtilitiesRegisteredFor W (final W hashable ops) p) /\
+    forall p' n c i f, In (RU p' n c i f) (registeredUtilities (final W hashable ops)) -> vid c <> vid v.
+Proof.
+  exists W0, hashable0, cls0, f13_ops, 3, (mkV 1 1). split; [exact hashable0_cls|].
+  destruct f13_witness as [H1 [H2 H3]]. split; [exact H1|]. rewrite H2, H3. split; [left; reflexivity|].
+  intros p' n c i f [E|[]]. inversion E. cbn. discriminate.
+Qed.
